@@ -1,9 +1,9 @@
 HOOK_COMMITS = ["f2e3e94"]
 NOTES = "Runtime monitoring and sanitizers only. bin/check <id> --tier quick|thorough; VERIF_SEED seeds all random choices. Known findings: /verif/known_findings.json. See DESIGN.md."
 ENGINES = [
-    {"name": "stall-sweep", "path": "harness/vkit/src/sched.rs", "serves_properties": ["C03", "C09"], "kind_free_text": "real threads; atomics hook stalls one thread at every hooked atomic operation (depth-1 exhaustive, depth-2 sampled, random delays)"},
-    {"name": "tsan", "path": "bin/vrunner.py", "serves_properties": ["C03", "C09"], "kind_free_text": "ThreadSanitizer build (-Zbuild-std) of the same workloads; reports classified (user-memory race / documented optimistic read / other)"},
-    {"name": "miri", "path": "bin/vrunner.py", "serves_properties": ["C03", "C09"], "kind_free_text": "Miri: UB + data-race detector + weak-memory emulation for race-free structures/regimes (full mode), SC interleavings otherwise"},
+    {"name": "stall-sweep", "path": "harness/vkit/src/sched.rs", "serves_properties": ["C03", "C09", "C10", "C12"], "kind_free_text": "real threads; atomics hook stalls one thread at every hooked atomic operation (depth-1 exhaustive, depth-2 sampled, random delays)"},
+    {"name": "tsan", "path": "bin/vrunner.py", "serves_properties": ["C03", "C09", "C10", "C12"], "kind_free_text": "ThreadSanitizer build (-Zbuild-std) of the same workloads; reports classified (user-memory race / documented optimistic read / other)"},
+    {"name": "miri", "path": "bin/vrunner.py", "serves_properties": ["C03", "C09", "C10", "C12"], "kind_free_text": "Miri: UB + data-race detector + weak-memory emulation for race-free structures/regimes (full mode), SC interleavings otherwise"},
 ]
 NOT_YET = {}
 META = {
@@ -20,5 +20,19 @@ META = {
         "level_text": "Exploration: random small programs over three allocators, each run under every depth-1 stall point (the ABA family), sampled depth-2, random delays; debug, release, TSan, Miri.",
         "level_note": "Held on the executions observed only. Trusted: CLOCK_MONOTONIC (5 us margin), Miri/TSan.",
         "design_ref": "DESIGN.md section 4 C09",
+    },
+    "C10": {
+        "engine": "stall-sweep + tsan + miri",
+        "technique": "membership-by-timestamp snapshot checker with tear-detecting entries on perturbed real-thread executions; TSan; Miri",
+        "level_text": "Exploration: random add/remove/recover programs with slot reuse against a refreshing reader under every depth-1 stall point, sampled depth-2 and random delays; debug, release, TSan, Miri.",
+        "level_note": "Held on the executions observed only. Trusted: CLOCK_MONOTONIC (5 us margin), Miri/TSan. Service-level registries are exercised by the port workloads of C01/C11.",
+        "design_ref": "DESIGN.md section 4 C10",
+    },
+    "C12": {
+        "engine": "stall-sweep + tsan + miri",
+        "technique": "self-checking values, monotone versions and producer-token interval checker on perturbed real-thread executions; TSan; Miri",
+        "level_text": "Exploration: writer/contender/readers programs over 10 value sizes x 3 alignments under every depth-1 stall point, sampled depth-2, random delays; debug, release, TSan, Miri.",
+        "level_note": "Held on the executions observed only. Trusted: CLOCK_MONOTONIC (5 us margin), Miri/TSan.",
+        "design_ref": "DESIGN.md section 4 C12",
     },
 }
